@@ -27,6 +27,8 @@ THEOREMS = [
     "RefineRepair.isSingleRoot_refines", "RefineRepair.linkRoots_refines", "RefineRepair.readFix_stages",
     "C18.generated_isSingleRoot_eq_model", "C18.generated_isSingleRoot_total", "C18.generated_linkRoots_eq_model",
     "C18.generated_repair_nearest_tree",
+    "C18.generated_readFix_unknown_raises", "C18.generated_readFix_few_roots", "C18.generated_readFix_plain", "C18.checkStage_total",
+    "C18.generated_readFix_somas", "C18.generated_readFix_nearest",
 ]
 TRUSTED = ["hand-written models Model/Dsu.lean of DisjointSetUnion, has_cyclic, is_bifurcate, get_dsu / is_single_root, mark_roots_as_somas_, "
            "link_roots_to_nearest_ (tied by the c18.* correspondence suites: union/find scripts, ALL parent tables with n ≤ 5, random larger ones, multi-root files)"]
